@@ -14,22 +14,46 @@ theorem lenRel_step (hi : Inv s) (h : step s l = some s') :
   have h4 := hi.othersNotM l.tid
   have h5 := hi.mainIsM
   have h6 := hi.liveHandle l.tid
+  have hA := ph_of_pastChk hi l.tid
+  have hB := ph_of_inTask hi l.tid
   step_cases h
   all_goals (
     by_cases h0 : l.tid = 0
     · simp_all [State.goto, upd_apply, zero_eq] <;> fin
     · simp_all [State.goto, upd_apply, zero_eq] <;> fin)
 
+/-- a worker that holds the mutex after `m_thpool_new` has returned is in `pool->threads` (nobody else can be between
+`pthread_create` and `m_list_insert`) -/
+theorem holder_in_threads (hi : Inv s) (u : Tid) (hw : isW (s.pc u) = true) (hh : holds (s.pc u) = true)
+    (hne : s.pc u ≠ .nInsert) (h2 : 2 ≤ ph (s.pc 0)) (h13 : ph (s.pc 0) ≤ 13) : u ∈ s.threads := by
+  have hmem := (hi.workersIff u).mpr hw
+  cases hp : s.pendBy with
+  | none => exact hi.pendNone hp h13 u hmem
+  | some c =>
+    exfalso
+    rcases (hi.pendPc c).mp hp with hc | hc | hc
+    · have a := hi.mutex c (by simp [hc]); have b := hi.mutex u hh
+      rw [a] at b; cases b; simp [hc] at hw
+    · have a := hi.mutex c (by simp [hc]); have b := hi.mutex u hh
+      rw [a] at b; cases b; exact hne hc
+    · by_cases c0 : c = 0
+      · subst c0; simp [hc] at h2
+      · have := hi.othersNotM c c0; simp [hc] at this
+
 set_option maxHeartbeats 1000000 in
 theorem createRoom_step (hi : Inv s) (h : step s l = some s') :
-    ∀ u, s'.pc u = .sCreate → s'.threads.length < s'.cfg.maxThreads := by
+    ∀ u, (s'.pc u = .sCreate ∨ s'.pc u = .nCreate) → s'.threads.length < s'.cfg.maxThreads := by
   intro u hu
   have h1 := hi.createRoom u
+  have hAu := ph_of_pastChk hi u
+  have hBu := ph_of_inTask hi u
   have h2 := hi.mutex u
   have h3 := hi.mutex l.tid
   have h4 := hi.liveHandle u
   have h5 := hi.maxPos
   have h6 := hi.othersNotM l.tid
+  have hA := ph_of_pastChk hi l.tid
+  have hB := ph_of_inTask hi l.tid
   step_cases h
   all_goals (
     by_cases ht : u = l.tid
@@ -46,6 +70,8 @@ theorem workersLe_step (hi : Inv s) (h : step s l = some s') : s'.workers.length
   have h5 := hi.newIdx
   have h6 := hi.liveHandle l.tid
   have h7 := hi.othersNotM l.tid
+  have hA := ph_of_pastChk hi l.tid
+  have hB := ph_of_inTask hi l.tid
   step_cases h
   all_goals (first | exact h1 | (
     by_cases h0 : l.tid = 0
@@ -59,6 +85,8 @@ theorem newIdx_step (hi : Inv s) (h : step s l = some s') :
   have h4 := hi.othersNotM l.tid
   have h5 := hi.mainIsM
   have h6 := hi.liveHandle l.tid
+  have hA := ph_of_pastChk hi l.tid
+  have hB := ph_of_inTask hi l.tid
   step_cases h
   all_goals (
     by_cases h0 : l.tid = 0
@@ -71,6 +99,8 @@ theorem eagerFull_step (hi : Inv s) (h : step s l = some s') :
   have h1 := hi.eagerFull
   have h4 := hi.othersNotM l.tid
   have h5 := hi.mainIsM
+  have hA := ph_of_pastChk hi l.tid
+  have hB := ph_of_inTask hi l.tid
   step_cases h
   all_goals (
     by_cases h0 : l.tid = 0
@@ -78,14 +108,25 @@ theorem eagerFull_step (hi : Inv s) (h : step s l = some s') :
     · simp_all [State.goto, upd_apply, zero_eq] <;> fin)
 
 set_option maxHeartbeats 1000000 in
-theorem enqThreads_step (hi : Inv s) (h : step s l = some s') : ∀ u, s'.pc u = .sEnq → s'.threads ≠ [] := by
+theorem enqThreads_step (hi : Inv s) (h : step s l = some s') : ∀ u, (s'.pc u = .sEnq ∨ s'.pc u = .nEnq) → s'.threads ≠ [] := by
   intro u hu
   have h1 := hi.enqThreads u
+  have hAu := ph_of_pastChk hi u
+  have hBu := ph_of_inTask hi u
+  have hT : s.pc l.tid = .nShutChk → s.shutdown = .no → s.threads ≠ [] := fun e hno hnil => by
+    have h2 := ph_of_inTask hi l.tid (by simp [e])
+    have h4 : ph (s.pc 0) ≤ 4 := by
+      have b := hi.shutSet
+      cases hm : s.mode <;> (apply Nat.le_of_not_lt; intro hlt; have := b (by omega); simp [hm, hno] at this)
+    have := holder_in_threads hi l.tid (by simp [e]) (by simp [e]) (by simp [e]) h2 (by omega)
+    rw [hnil] at this; cases this
   have h2 := hi.eagerFull
   have h3 := hi.liveHandle l.tid
   have h4 := hi.liveHandle u
   have h5 := hi.maxPos
   have h6 := hi.othersNotM l.tid
+  have hA := ph_of_pastChk hi l.tid
+  have hB := ph_of_inTask hi l.tid
   step_cases h
   all_goals (
     by_cases ht : u = l.tid
@@ -98,6 +139,8 @@ theorem tasksThreads_step (hi : Inv s) (h : step s l = some s') : s'.tasks ≠ [
   have h2 := hi.enqThreads l.tid
   have h3 := hi.tasksFreed
   have h4 := hi.othersNotM l.tid
+  have hA := ph_of_pastChk hi l.tid
+  have hB := ph_of_inTask hi l.tid
   step_cases h
   all_goals (first | exact h1 | (by_cases h0 : l.tid = 0 <;> simp_all [State.goto] <;> fin))
 
@@ -107,6 +150,8 @@ theorem tasksFreed_step (hi : Inv s) (h : step s l = some s') : 13 ≤ ph (s'.pc
   have h2 := hi.liveHandle l.tid
   have h4 := hi.othersNotM l.tid
   have h5 := hi.mainIsM
+  have hA := ph_of_pastChk hi l.tid
+  have hB := ph_of_inTask hi l.tid
   step_cases h
   all_goals (
     by_cases h0 : l.tid = 0
